@@ -363,4 +363,12 @@ def recovered {L W : Type} (c : Conv L W) (r : Issued W) : Option L :=
   | x :: _ => some (c.toLocal x.attrs)
   | [] => none
 
+/-- The composition the second sentence of C09 is about: the issued Response handed to the SP. -/
+def endToEnd {L W : Type} (c : Conv L W) (spCfg : Sp.Cfg) (env : Sp.Env) (trusts : Bool) (r : Issued W) :
+    Sp.Outcome × Option L :=
+  let o := Sp.process spCfg env (toSp trusts r)
+  (o, match o with
+      | .identity _ => recovered c r
+      | _ => none)
+
 end Idp
